@@ -22,10 +22,76 @@ import os
 from fractions import Fraction
 
 from .. import translate
+from . import normalize
 
 REL = "fairlearn/adversarial/_adversarial_mitigation.py"
 REL_PRE = "fairlearn/adversarial/_preprocessor.py"
 CLS = "_AdversarialFairness"
+
+
+# Locals of the pinned `fit` / `partial_fit` / ... in order of first binding: a function that binds MORE locals gets its
+# new single-use temporaries inlined again (normalize.inline_new_temporaries) before it is matched.
+PINNED_LOCALS = {
+    "fit": ["reinitialize", "A", "predictor_model", "adversary_model", "batch_size", "batches", "epochs", "start_time",
+            "last_update_time", "predictor_losses", "adversary_losses", "epoch", "batch", "progress", "ETA", "batch_slice",
+            "LP", "LA", "stop", "cb", "result"],
+    "_binary_predictor_function": [],
+    "partial_fit": ["first_call", "A"],
+}
+# The header comment names the locals by ROLE with the pinned spelling (the actual names are in the meta data).
+PINNED_ROLES = dict(epochs="epochs", batches="batches", batch_size="batch_size", epoch="epoch", batch="batch", slice="batch_slice")
+# name of the generated definition -> (the term emitted for the pinned source, the source text quoted in its doc comment).
+# When the lifted term IS the pinned term (modulo `a + b` / `a * b` operand order, see normalize.lean_prefer) the pinned
+# term and quotation are emitted, so that a re-spelling of the same definition leaves the generated file byte-identical;
+# any other term is emitted with the actual source text.
+PINNED_DEFS = {
+    "rejects": ("((self_epochs == (-1 : Int)) && (self_max_iter == (-1 : Int)))",
+                "if self.epochs == -1 and self.max_iter == -1: raise ValueError"),
+    "batchSize": ("(if (self_batch_size == (-1 : Int)) then n else self_batch_size)",
+                  "if self.batch_size == -1: ;     batch_size = X.shape[0] ; else: ;     batch_size = self.batch_size"),
+    "batches": ("(pyCeilDiv n batch_size)", "batches = ceil(X.shape[0] / batch_size)"),
+    "epochs": ("(if (self_epochs == (-1 : Int)) then (pyCeilDiv self_max_iter batches) else self_epochs)",
+               "if self.epochs == -1: ;     epochs = ceil(self.max_iter / batches) ; else: ;     epochs = self.epochs"),
+    "nIterInit": ("(0 : Int)", "self.n_iter_ = 0"),
+    "sliceLo": ("(batch * batch_size)", "slice(batch * batch_size, ..)"),
+    "sliceHi": ("(min ((batch + (1 : Int)) * batch_size) n)", "slice(.., min((batch + 1) * batch_size, X.shape[0]))"),
+    "incIter": ("(n_iter + (1 : Int))", "self.n_iter_ += 1"),
+    "hitMax": ("((self_max_iter != (-1 : Int)) && decide (n_iter ≥ self_max_iter))",
+               "if self.max_iter != -1 and self.n_iter_ >= self.max_iter: ..."),
+    "stopAcc": (".orAcc", "stop = stop or result"),
+    "cbStep": ("n_iter", "cb(self, step=self.n_iter_, ...)"),
+    "binaryRule": (".threshold .ge", "(pred >= self.threshold_value).astype(float)"),
+    "multiclassRule": (".argmaxRow", "argmax(pred, axis=1); b[a, c] = 1"),
+    "fitReinit": ("((!has_classes) || (!warm_start))", "fit: reinitialize = not hasattr(self, 'classes_') or not self.warm_start"),
+    "partialFitFirstCall": ("(!has_classes)", "partial_fit: first_call = not hasattr(self, 'classes_')"),
+    "partialFitSetsClasses": ("(first_call && classes_given)",
+                              "partial_fit: if first_call and classes is not None:     self.classes_ = classes"),
+    "setupWhen": ("((!is_fitted) || reinitialize)",
+                  "_validate_input: if not is_fitted or reinitialize: self.__setup(X, y, A)  "
+                  "(is_fitted = hasattr(self, '_is_setup'), set at the end of __setup)"),
+}
+
+
+# definitions that are pure propositional formulas over the named Bool atoms (side-effect free reads): a formula with the
+# truth table of the pinned one (De Morgan, swapped disjuncts, double negation ..) is emitted as the pinned one
+BOOL_DEFS = {"fitReinit": ("has_classes", "warm_start"), "partialFitFirstCall": ("has_classes",),
+             "partialFitSetsClasses": ("first_call", "classes_given"), "setupWhen": ("is_fitted", "reinitialize")}
+
+
+def _truth_table(expr, atoms):
+    """truth table of an emitted `!` / `&&` / `||` formula over `atoms`, or None if it is not one"""
+    import itertools
+    import re
+    toks = re.findall(r"&&|\|\||[!()]|[A-Za-z_]\w*", expr)
+    if "".join(toks) != "".join(expr.split()) or any(t[0].isalpha() and t not in atoms + ("true", "false") for t in toks):
+        return None
+    py = " ".join({"&&": "and", "||": "or", "!": "not", "true": "True", "false": "False"}.get(t, t) for t in toks)
+    try:
+        code = compile(py, "<formula>", "eval")
+        return tuple(bool(eval(code, {"__builtins__": {}}, dict(zip(atoms, vals))))
+                     for vals in itertools.product((False, True), repeat=len(atoms)))
+    except Exception:
+        return None
 
 
 class _U(translate.Untranslatable):
@@ -100,7 +166,9 @@ class Expr:
                 return f"({a} == {b})"
             if op is ast.NotEq:
                 return f"({a} != {b})"
-            rel = {ast.GtE: "≥", ast.Gt: ">", ast.LtE: "≤", ast.Lt: "<"}.get(op)
+            if op in (ast.LtE, ast.Lt):          # `a <= b` is `b >= a`: one spelling for both
+                a, b, op = b, a, {ast.LtE: ast.GtE, ast.Lt: ast.Gt}[op]
+            rel = {ast.GtE: "≥", ast.Gt: ">"}.get(op)
             if rel:
                 return f"decide ({a} {rel} {b})"
         _bad(f"{self.what}: cannot translate condition `{_src(node)}`")
@@ -164,7 +232,7 @@ def _local_def(stmts, name, ex, what):
     found = []
     for i, st in enumerate(stmts):
         if isinstance(st, ast.Assign) and len(st.targets) == 1 and _src(st.targets[0]) == name:
-            found.append((i, ex.int(st.value), _src(st)))
+            found.append((i, ex.int(st.value), _src(st)))       # (`name = a if c else b` gives the same term as the if-statement)
         elif isinstance(st, ast.If) and name in _assigned(st):
             ok = (len(st.body) == 1 and len(st.orelse) == 1
                   and all(isinstance(s, ast.Assign) and len(s.targets) == 1 and _src(s.targets[0]) == name
@@ -208,6 +276,7 @@ def _find_fn(cls, name, rel):
 
 # ------------------------------------------------------------------------------------------- fit
 def lift_fit(fn):
+    fn = normalize.inline_new_temporaries(fn, PINNED_LOCALS["fit"])
     body = fn.body
     loops = [i for i, s in enumerate(body) if isinstance(s, ast.For)]
     if len(loops) != 1:
@@ -512,7 +581,8 @@ def lift_predict(cls, tree):
         _bad("__init__: self.threshold_value is not the constructor argument")
 
     # binary rule
-    fb = _find_fn(cls, "_binary_predictor_function", REL)
+    fb = normalize.inline_new_temporaries(_find_fn(cls, "_binary_predictor_function", REL),
+                                          PINNED_LOCALS["_binary_predictor_function"])
     arg = fb.args.args[1].arg if len(fb.args.args) == 2 else None
     st = [s for s in fb.body if not (isinstance(s, ast.Expr) and isinstance(s.value, ast.Constant))]
     ok = (arg and len(st) == 1 and isinstance(st[0], ast.Return) and isinstance(st[0].value, ast.Call)
@@ -578,23 +648,34 @@ def lift_predict(cls, tree):
     fp = _find_fn(cls, "predict", REL)
     st = [s for s in fp.body if not (isinstance(s, ast.Expr) and isinstance(s.value, ast.Constant))]
     stages = []
-    var = None
+    var = "X"
+    STAGE = {"self._raw_predict": "rawPredict", "self.predictor_function_": "predictorFunction",
+             "self._y_transform.inverse_transform": "inverseTransform"}
+
+    def consume(e, what):
+        """`f3(f2(f1(<previous stage>)))` -> the stages f1, f2, f3 (innermost first)"""
+        chain = []
+        while isinstance(e, ast.Call):
+            if len(e.args) != 1 or e.keywords or isinstance(e.args[0], ast.Starred):
+                _bad(f"predict: statement of unknown shape: {what}")
+            chain.append(_src(e.func))
+            e = e.args[0]
+        if _src(e) != var:
+            _bad(f"predict: `{what}` does not consume the previous stage")
+        for f in reversed(chain):
+            if f not in STAGE:
+                _bad(f"predict: unknown stage `{f}`")
+            stages.append(STAGE[f])
+
     for s in st[:-1]:
         if not (isinstance(s, ast.Assign) and len(s.targets) == 1 and isinstance(s.targets[0], ast.Name)
-                and isinstance(s.value, ast.Call) and len(s.value.args) == 1 and not s.value.keywords):
+                and isinstance(s.value, ast.Call)):
             _bad(f"predict: statement of unknown shape: {_src(s)}")
-        f, a = _src(s.value.func), _src(s.value.args[0])
-        want_arg = "X" if var is None else var
-        if a != want_arg:
-            _bad(f"predict: `{_src(s)}` does not consume the previous stage")
-        stage = {"self._raw_predict": "rawPredict", "self.predictor_function_": "predictorFunction",
-                 "self._y_transform.inverse_transform": "inverseTransform"}.get(f)
-        if stage is None:
-            _bad(f"predict: unknown stage `{f}`")
-        stages.append(stage)
+        consume(s.value, _src(s))
         var = s.targets[0].id
-    if not (isinstance(st[-1], ast.Return) and _src(st[-1].value) == var):
+    if not (st and isinstance(st[-1], ast.Return) and st[-1].value is not None):
         _bad("predict: does not return the last stage")
+    consume(st[-1].value, _src(st[-1]))
     return dict(threshold=thr, binary=binary, multi=multi, stages=stages)
 
 
@@ -633,8 +714,13 @@ def lift_onehot_argmax(fn, tree):
     if not (isinstance(z, ast.Call) and _src(z.func) in ("zeros", "numpy.zeros", "np.zeros") and z.args and shape_ok(z.args[0])):
         _bad(f"multiclass rule: `{out}` is not zeros(pred.shape): {_src(z) if z is not None else None}")
     r = resolve(rows)
+    def n_rows(e):
+        if _src(e) == f"len({p})":
+            return True
+        return (isinstance(e, ast.Subscript) and isinstance(e.slice, ast.Constant) and e.slice.value == 0
+                and not isinstance(e.slice.value, bool) and shape_ok(e.value))
     if not (isinstance(r, ast.Call) and _src(r.func) in ("arange", "numpy.arange", "np.arange") and len(r.args) == 1
-            and _src(r.args[0]) in (f"{p}.shape[0]", "shape[0]", f"len({p})")):
+            and not r.keywords and n_rows(r.args[0])):
         _bad(f"multiclass rule: row index is not arange(number of rows): {_src(r) if r is not None else None}")
     c = resolve(cols)
     if not (isinstance(c, ast.Call) and _src(c.func) in ("argmax", "argmin", "numpy.argmax", "np.argmax", "numpy.argmin", "np.argmin")
@@ -653,20 +739,25 @@ def lift_onehot_argmax(fn, tree):
 
 def lift_inverse(repo):
     with open(os.path.join(repo, REL_PRE)) as f:
-        tree = ast.parse(f.read())
+        tree = normalize.parse(f.read())
     cls = _find_class(tree, "FloatTransformer", REL_PRE)
     fn = _find_fn(cls, "inverse_transform", REL_PRE)
     arg = fn.args.args[1].arg
     src = " ; ".join(_src(s) for s in fn.body if not (isinstance(s, ast.Expr) and isinstance(s.value, ast.Constant)))
     # the continuous branch returns its argument unchanged; the other branch delegates to the fitted encoder
     found_identity = found_encoder = False
+    inv = "inverse"
     for n in ast.walk(fn):
         if isinstance(n, ast.If) and _src(n.test) == "self.inferred_type_ == 'continuous'":
-            found_identity = (len(n.body) == 1 and _src(n.body[0]) == f"inverse = {arg}")
-            found_encoder = (len(n.orelse) == 1 and _src(n.orelse[0]) == f"inverse = self.transform_.inverse_transform({arg})")
+            b0 = n.body[0] if len(n.body) == 1 else None
+            if isinstance(b0, ast.Assign) and len(b0.targets) == 1 and isinstance(b0.targets[0], ast.Name) \
+                    and b0.targets[0].id not in (arg, "self"):
+                inv = b0.targets[0].id
+            found_identity = (len(n.body) == 1 and _src(n.body[0]) == f"{inv} = {arg}")
+            found_encoder = (len(n.orelse) == 1 and _src(n.orelse[0]) == f"{inv} = self.transform_.inverse_transform({arg})")
     ret = [s for s in fn.body if isinstance(s, ast.Return)]
     if not (found_identity and found_encoder and len(ret) == 1
-            and _src(ret[0].value) == "inverse.reshape(-1) if self.input_dim_ == 1 else inverse"):
+            and _src(ret[0].value) == f"{inv}.reshape(-1) if self.input_dim_ == 1 else {inv}"):
         _bad(f"FloatTransformer.inverse_transform: unknown shape: {src[:200]}")
     # the encoder: OneHotEncoder(drop='if_binary', handle_unknown='error', ...)
     fit = _find_fn(cls, "fit", REL_PRE)
@@ -701,9 +792,13 @@ def _nodoc(body):
 def lift_lifecycle(cls):
     """which latches decide about (re-)initialisation in fit / partial_fit / _validate_input / predict"""
     HAS = "hasattr(self, 'classes_')"
-    fit = _find_fn(cls, "fit", REL)
-    pfit = _find_fn(cls, "partial_fit", REL)
+    fit = normalize.inline_new_temporaries(_find_fn(cls, "fit", REL), PINNED_LOCALS["fit"])
+    pfit = normalize.inline_new_temporaries(_find_fn(cls, "partial_fit", REL), PINNED_LOCALS["partial_fit"])
     val = _find_fn(cls, "_validate_input", REL)
+    params = [a.arg for a in val.args.args]
+    if params[:4] != ["self", "X", "y", "A"] or len(params) != 5:
+        _bad(f"_validate_input: parameters {params}")
+    rparam = params[4]
     raw = _find_fn(cls, "_raw_predict", REL)
 
     def validate_call(fn, what):
@@ -712,13 +807,19 @@ def lift_lifecycle(cls):
         if len(calls) != 1 or sum(1 for n in ast.walk(fn) if isinstance(n, ast.Call) and _src(n.func) == "self._validate_input") != 1:
             _bad(f"{what}: expected exactly one top-level self._validate_input call")
         i, st = calls[0]
-        a = st.value.args
-        if len(a) != 4 or st.value.keywords or [_src(x) for x in a[:3]] != ["X", "y", "sensitive_features"] \
-                or not isinstance(a[3], ast.Name):
+        a = list(st.value.args)
+        kws = {k.arg: k.value for k in st.value.keywords}
+        if len(a) == 3 and set(kws) == {rparam} and len(st.value.keywords) == 1:
+            a.append(kws[rparam])                      # the flag passed by keyword
+        elif st.value.keywords:
+            a = []
+        if len(a) != 4 or [_src(x) for x in a[:3]] != ["X", "y", "sensitive_features"]:
             _bad(f"{what}: _validate_input call of unknown shape: {_src(st)}")
-        return i, a[3].id
+        return i, (a[3].id if isinstance(a[3], ast.Name) else a[3])
 
     def local_bool(fn, name, upto, atoms, what):
+        if not isinstance(name, str):                  # the rule written in the call itself
+            return upto, _boolx(name, atoms, what), f"{rparam} = {_src(name)}"
         d = [(i, s) for i, s in enumerate(fn.body[:upto]) if isinstance(s, ast.Assign) and len(s.targets) == 1
              and _src(s.targets[0]) == name]
         if len(d) != 1 or any(name in _assigned(s) for j, s in enumerate(fn.body) if j != d[0][0]):
@@ -735,6 +836,8 @@ def lift_lifecycle(cls):
     validates_first = iv < guards[0]
     # partial_fit
     ip, fname = validate_call(pfit, "partial_fit")
+    if not isinstance(fname, str):
+        _bad("partial_fit: the first-call flag is not a local")
     i_fc, pf_first, pf_src = local_bool(pfit, fname, ip, {HAS: "has_classes"}, "partial_fit")
     sets = [(i, s) for i, s in enumerate(pfit.body) if "self.classes_" in _assigned(s)]
     if len(sets) != 1:
@@ -746,22 +849,26 @@ def lift_lifecycle(cls):
         _bad(f"partial_fit: classes_ assignment of unknown shape / position: {_src(sc)[:80]}")
     pf_sets = _boolx(sc.test, {fname: "first_call", "classes is not None": "classes_given"}, "partial_fit/classes_")
     # _validate_input
-    params = [a.arg for a in val.args.args]
-    if params[:4] != ["self", "X", "y", "A"] or len(params) != 5:
-        _bad(f"_validate_input: parameters {params}")
-    rparam = params[4]
     tries = [s for s in val.body if isinstance(s, ast.Try)]
-    okt = (len(tries) == 1 and [_src(x) for x in tries[0].body] == ["check_is_fitted(self)", "is_fitted = True"]
-           and len(tries[0].handlers) == 1 and _src(tries[0].handlers[0].type) == "NotFittedError"
-           and [_src(x) for x in tries[0].handlers[0].body] == ["is_fitted = False"] and not tries[0].orelse and not tries[0].finalbody)
-    if not okt:
+    flag = None
+    if len(tries) == 1 and len(tries[0].handlers) == 1 and not tries[0].finalbody \
+            and tries[0].handlers[0].type is not None and _src(tries[0].handlers[0].type) == "NotFittedError":
+        t = tries[0]
+        ok_body = t.body + t.orelse            # `flag = True` may stand in the try body or in its `else:` (nothing can raise between)
+        hb = t.handlers[0].body
+        if len(ok_body) == 2 and _src(ok_body[0]) == "check_is_fitted(self)" and len(t.body) >= 1 and len(hb) == 1 \
+                and isinstance(ok_body[1], ast.Assign) and len(ok_body[1].targets) == 1 and isinstance(ok_body[1].targets[0], ast.Name) \
+                and _src(ok_body[1].value) == "True" and _src(hb[0]) == f"{ok_body[1].targets[0].id} = False":
+            flag = ok_body[1].targets[0].id
+    if flag is None or flag in params or sum(1 for n in ast.walk(val) if isinstance(n, ast.Name) and n.id == flag
+                                             and not isinstance(n.ctx, ast.Load)) != 2:
         _bad("_validate_input: the is_fitted probe is not `try: check_is_fitted(self); is_fitted = True / except NotFittedError: is_fitted = False`")
     setups = [(i, s) for i, s in enumerate(val.body) if isinstance(s, ast.If) and not s.orelse and len(s.body) == 1
               and _src(s.body[0]) == "self.__setup(X, y, A)"]
     n_setup_calls = sum(1 for n in ast.walk(cls) if isinstance(n, ast.Call) and _src(n.func) == "self.__setup")
     if len(setups) != 1 or n_setup_calls != 1 or setups[0][0] < val.body.index(tries[0]):
         _bad(f"_validate_input: expected exactly one `if ...: self.__setup(X, y, A)` after the is_fitted probe ({n_setup_calls} calls in the class)")
-    setup_when = _boolx(setups[0][1].test, {"is_fitted": "is_fitted", rparam: "reinitialize"}, "_validate_input/setup")
+    setup_when = _boolx(setups[0][1].test, {flag: "is_fitted", rparam: "reinitialize"}, "_validate_input/setup")
     latch = [(i, s) for i, s in enumerate(val.body) if isinstance(s, ast.If) and _src(s.test) == f"not {HAS}"]
     if len(latch) != 1 or latch[0][0] < setups[0][0] or [_src(x) for x in latch[0][1].body] != ["self.classes_ = unique(y)"]:
         _bad("_validate_input: `if not hasattr(self, 'classes_'): self.classes_ = unique(y)` not found after the setup")
@@ -788,7 +895,7 @@ def _doc(s):
 @translate.lifter
 def adv_schedule(repo):
     with open(os.path.join(repo, REL)) as f:
-        tree = ast.parse(f.read())
+        tree = normalize.parse(f.read())
     cls = _find_class(tree, CLS, REL)
     r = lift_fit(_find_fn(cls, "fit", REL))
     npf = lift_partial_fit(_find_fn(cls, "partial_fit", REL))
@@ -797,10 +904,16 @@ def adv_schedule(repo):
     lc = lift_lifecycle(cls)
     cb = r["cb"]
     o = ["/-", f"GENERATED by harness/lifters/adv_schedule.py from {REL}", f"and {REL_PRE}. Do not edit.",
-         "Roles of the locals in `fit`: " + ", ".join(f"{k}=`{v}`" for k, v in sorted(r["roles"].items())), "-/",
+         "Roles of the locals in `fit`: " + ", ".join(f"{k}=`{v}`" for k, v in sorted(PINNED_ROLES.items())), "-/",
          "import FairModel.Model.SchedCfg", "", "set_option linter.unusedVariables false", "", "namespace AdvScheduleSrc", "open SchedCfg", ""]
 
     def d(name, params, ty, expr, src):
+        pin = PINNED_DEFS.get(name)
+        if pin is not None and normalize.lean_prefer(expr, [pin[0]]) == pin[0]:
+            expr, src = pin
+        elif pin is not None and name in BOOL_DEFS and _truth_table(expr, BOOL_DEFS[name]) is not None \
+                and _truth_table(expr, BOOL_DEFS[name]) == _truth_table(pin[0], BOOL_DEFS[name]):
+            expr, src = pin
         o.extend([f"/-- `{_doc(src)}` -/", f"def {name} {params} : {ty} := {expr}", ""])
 
     d("rejects", "(self_epochs self_max_iter : Int)", "Bool", r["rejects"][0], "if " + r["rejects"][1] + ": raise ValueError")
